@@ -111,7 +111,20 @@ def build_lib(wd, cfg='prod', has=None, extra='', only=None):
     return od, [o for _, _, o in res]
 
 
+OPTIONAL_CONFIGS = {'portable'}     # auxiliary configurations: if the tree no longer builds that way they are skipped
+
+
 def build_driver(wd, cfg='prod', has=None, extra='', name='tjdrive', wraps=(), more_src=()):
+    if cfg in OPTIONAL_CONFIGS:
+        try:
+            return _build_driver(wd, cfg, has, extra, name, wraps, more_src)
+        except MachineryError as e:
+            print(f"[note] optional build configuration '{cfg}' is not available for this tree: {str(e)[:200]}", flush=True)
+            return None
+    return _build_driver(wd, cfg, has, extra, name, wraps, more_src)
+
+
+def _build_driver(wd, cfg='prod', has=None, extra='', name='tjdrive', wraps=(), more_src=()):
     od, objs = build_lib(wd, cfg, has, extra)
     c = CONFIGS[cfg]
     exe = os.path.join(od, name)
